@@ -72,7 +72,11 @@ def make_resolver(tn, fd, wrap=None, methods_for=None):
         if tl is not None:
             tl.append(("ret", tuple(path)))
         if b[0] == "error":
-            raise ResolverError(b[1], extensions=b[2])
+            ext = b[2]
+            if isinstance(ext, dict) and ext.get("code", 0) % 2:
+                import types
+                ext = types.MappingProxyType(ext)   # `extensions` is declared as a Mapping: a read-only view is one
+            raise ResolverError(b[1], extensions=ext)
         return objectify(b[1], methods_for) if methods_for else b[1]
 
     resolver.__name__ = "resolve_%s_%s" % (tn, fd["name"])
